@@ -39,6 +39,11 @@ def run(ctx):
         ctx.sample({"adversarial_scenario": sc["name"], "steps": sc["steps"][:8], "n_steps": len(sc["steps"])})
     cex2, res2 = af.tlc_cex(ctx, "MC_Agent_bad_remote_backpressure.cfg", "bad_remote_backpressure")
     cov["per_config"]["MC_Agent_bad_remote_backpressure.cfg"] = {"status": res2["status"], "expected": "violation"}
+    # a caller that stops waiting while the reply still goes to its own unbuffered channel: the dispatcher blocks for good
+    res3 = ctx.run_tlc("MC_Agent.tla", "MC_Agent_bad_callergivesup.cfg", workers=4, timeout=600)
+    cov["per_config"]["MC_Agent_bad_callergivesup.cfg"] = {"status": res3["status"], "expected": "violation (deadlock)"}
+    if res3["status"] != "violation":
+        ctx.inconclusive.append("wrong variant MC_Agent_bad_callergivesup.cfg not refuted (%s)" % res3["status"])
     # the same wedge at the real capacities (10 uploads + 10 queued + 2): a master that accepts and never answers
     up = {"u1": {"present": True, "pw": "p1", "set": 1, "adm": False}, "u2": {"present": True, "pw": "p2", "set": 2, "adm": True}}
     scenarios.append({"name": "stalled-master-burst", "mode": "stalled", "default": 2, "files": up,
